@@ -10,12 +10,10 @@
 (*   Q = the same after the step, "queue" = what one real                  *)
 (*       CacheRetrieveTransactions(255) returned as the last step          *)
 (*                                                                         *)
-(* Mode "full":    Q is what the specification computes (retry as coded,   *)
-(*                 or the intended retry) AND the property monitor.        *)
+(* Mode "full":    Q is exactly what the specification computes, AND the   *)
+(*                 property monitor.                                       *)
 (* Mode "C24":     only the implications of the statement (StepOKObs: the  *)
 (*                 retired proposals are those observed to leave the map). *)
-(* A step that breaks StepOK is not a violation iff it matches a finding   *)
-(* listed in known_findings.json (the driver exports VERIF_KNOWN_C24_1).   *)
 (***************************************************************************)
 EXTENDS TraceLib, FiniteSets
 
@@ -28,9 +26,6 @@ AggTxsU == [a \in AggU |-> CASE a = "a1" -> <<"t1", "t2">>
                              [] a = "a3" -> <<"t3", "t1">>]
 
 Pr == INSTANCE Proposal WITH Tx <- TxU, Agg <- AggU, AggTxs <- AggTxsU, Gap <- 2, None <- NoneC
-
-\* the driver exports VERIF_KNOWN_C24_1=1 iff known_findings.json lists the finding C24-1
-Listed_C24_1 == "VERIF_KNOWN_C24_1" \in DOMAIN IOEnv /\ IOEnv.VERIF_KNOWN_C24_1 = "1"
 
 VARIABLE l
 vars == <<l>>
@@ -58,19 +53,12 @@ PostOf(e) ==
       cbody  |-> [t \in TxU |-> e.post.cbody[t]],
       queued |-> [t \in TxU |-> t \in SeqToSet(e.post.queue)] ]
 
-Known(P, o, Q) ==
-    /\ Listed_C24_1
-    /\ Pr!KnownFinding_C24_1_Obs(P, o, Q)
-    /\ PrintT(<<"KNOWN-REACHED", "C24-1", l - 1>>)
-
 EventOK(e) ==
     LET P == PreOf(e)
         Q == PostOf(e)
     IN  /\ e.ev = "Case"
-        /\ (Mode = "full" =>
-              /\ e.res = "ok"
-              /\ (Q = Pr!Apply(P, e.o, FALSE) \/ Q = Pr!Apply(P, e.o, TRUE)))
-        /\ (Pr!StepOKObs(P, e.o, Q) \/ Known(P, e.o, Q))
+        /\ (Mode = "full" => e.res = "ok" /\ Q = Pr!Apply(P, e.o, TRUE))
+        /\ Pr!StepOKObs(P, e.o, Q)
 
 Inv == l > 1 => EventOK(Trace[l - 1])
 
